@@ -2,6 +2,10 @@ package main
 
 import (
 	"fmt"
+	"os"
+	"math/big"
+	"strings"
+	"sync"
 	"go/token"
 	"go/types"
 	"unicode/utf8"
@@ -234,12 +238,122 @@ func bytesEq(ab, bb []*Term) *Term {
 	if len(ab) != len(bb) {
 		return TFalse
 	}
-	cs := make([]*Term, len(ab))
-	for i := range ab {
-		cs[i] = Eq(ab[i], bb[i])
+	var cs []*Term
+	for i := 0; i < len(ab); {
+		// a run of bytes that are the successive extracts of two whole terms compares as the terms
+		if ra, na := wholeRun(ab, i); ra != nil {
+			if rb, nb := wholeRun(bb, i); rb != nil && na == nb {
+				cs = append(cs, wholeEq(ra, rb))
+				i += na
+				continue
+			} else if cb, ok := constRun(bb, i, na); ok {
+				cs = append(cs, wholeEq(ra, cb))
+				i += na
+				continue
+			}
+		} else if rb, nb := wholeRun(bb, i); rb != nil {
+			if ca, ok := constRun(ab, i, nb); ok {
+				cs = append(cs, wholeEq(ca, rb))
+				i += nb
+				continue
+			}
+		}
+		cs = append(cs, Eq(ab[i], bb[i]))
+		i++
 	}
 	return And(cs...)
 }
+
+// wholeRun detects bytes[i:] starting with all byte-extracts (most significant first) of one term.
+func wholeRun(bs []*Term, i int) (*Term, int) {
+	t := bs[i]
+	if t.Op != OExtract || t.S.W != 8 {
+		return nil, 0
+	}
+	r := t.Args[0]
+	if r.Op != OApp || r.S.W%8 != 0 || t.A != r.S.W-1 {
+		return nil, 0
+	}
+	n := r.S.W / 8
+	if i+n > len(bs) {
+		return nil, 0
+	}
+	for k := 0; k < n; k++ {
+		e := bs[i+k]
+		hi := r.S.W - 1 - 8*k
+		if e.Op != OExtract || e.Args[0] != r || e.A != hi || e.B != hi-7 {
+			return nil, 0
+		}
+	}
+	return r, n
+}
+
+func constRun(bs []*Term, i, n int) (*Term, bool) {
+	if i+n > len(bs) {
+		return nil, false
+	}
+	v := new(big.Int)
+	for k := 0; k < n; k++ {
+		if !bs[i+k].IsConst() {
+			return nil, false
+		}
+		v.Lsh(v, 8)
+		v.Or(v, bs[i+k].C)
+	}
+	return BVConst(v, 8*n), true
+}
+
+// wholeEq compares two hash results; with the collision-freeness assumption switched on,
+// equality of digests is equality of the hashed inputs.
+func wholeEq(a, b *Term) *Term {
+	if a == b {
+		return TTrue
+	}
+	if !hashInjective {
+		return rawEq(a, b)
+	}
+	if a.IsConst() {
+		a, b = b, a
+	}
+	if a.Op == OApp && b.Op == OApp {
+		if a.Name != b.Name {
+			return TFalse // different functions or input lengths
+		}
+		if len(a.Args) == 0 {
+			return TTrue
+		}
+		return Eq(a.Args[0], b.Args[0])
+	}
+	if a.Op == OApp && b.IsConst() {
+		if in, ok := digestInputs.Load(a.Name[:strings.Index(a.Name, "_")] + ":" + b.C.Text(16)); ok {
+			inp := in.([]byte)
+			if len(a.Args) == 0 {
+				return BoolConst(len(inp) == 0)
+			}
+			if a.Args[0].S.W != 8*len(inp) {
+				return TFalse
+			}
+			return Eq(a.Args[0], BVConst(new(big.Int).SetBytes(inp), 8*len(inp)))
+		}
+	}
+	if os.Getenv("VF_DEBUG_HASH") != "" {
+		fmt.Fprintf(os.Stderr, "wholeEq fallthrough: %s vs %s\n", a.str(3), b.str(3))
+	}
+	return rawEq(a, b)
+}
+
+func rawEq(a, b *Term) *Term {
+	if a == b {
+		return TTrue
+	}
+	if a.ID > b.ID && !b.IsConst() {
+		a, b = b, a
+	}
+	return intern(&Term{Op: OEq, S: SBool, Args: []*Term{a, b}})
+}
+
+var hashInjective bool
+var digestInputs sync.Map
 
 func (w *Worker) valueEq(x, y Value) *Term {
 	switch xv := x.(type) {
@@ -269,6 +383,25 @@ func (w *Worker) valueEq(x, y Value) *Term {
 		yv := y.(*ArrayV)
 		if xv == yv {
 			return TTrue
+		}
+		if len(xv.E) > 0 && len(xv.E) == len(yv.E) {
+			if t0, ok := xv.E[0].(*Term); ok && t0.S == SBV(8) {
+				ab := make([]*Term, len(xv.E))
+				bb := make([]*Term, len(yv.E))
+				allT := true
+				for i := range xv.E {
+					ta, oka := xv.E[i].(*Term)
+					tb, okb := yv.E[i].(*Term)
+					if !oka || !okb {
+						allT = false
+						break
+					}
+					ab[i], bb[i] = ta, tb
+				}
+				if allT {
+					return bytesEq(ab, bb)
+				}
+			}
 		}
 		cs := make([]*Term, len(xv.E))
 		for i := range cs {
